@@ -254,8 +254,11 @@ open Lemmas.WriterChunks in
     the integrated parser model (CIF 2.0, line unfolding and prefix removal on, target CIF present, frames allowed), under
     EVERY callback policy, returns CIF_OK, reports nothing, and leaves a CIF `back` whose blocks, frames, loops, packets and
     values are those written (`backBlock`: same codes, names, texts, keys, element order; a number comes back as the string
-    of its digits; a value that was quoted comes back quoted — an unquoted one may come back quoted: known finding
-    F-unquoted-overlong; loop categories are not part of the syntax).
+    of its digits; QUOTED STATUS: a value that was quoted comes back quoted, an unquoted string comes back unquoted whenever the
+    writer's own test `bareWritable` admits the whitespace-delimited form, an unquoted number whenever its text fits a line — the
+    only unquoted API strings that come back quoted (`bareWritable_iff`, `C02_quoted_status`) are (a) those beginning with `;`,
+    property C02's own exception, and (b) those longer than a line, the known finding F-unquoted-overlong; loop categories are
+    not part of the syntax).
     Composition of: the writer as chunks of an abstract document (Lemmas/WriterChunks*.lean), the scanner glue over chunks
     (Lemmas/LexGlue.lean, from gD's C01_lex_* theorems), gJ's `C01_parse_render_partial` / `C01_structure`, and
     `C02_line_bound`'s invariant.  No lexical hypothesis is left. -/
@@ -266,6 +269,37 @@ theorem C02_roundtrip_doc (o : Model.Parser.Opts) (pol : Model.Lexer.Policy) (ci
     (hw : writeCif 0 cif = .ok out) :
     ∃ back, Model.Parser.parse o pol [] out = { rc := 0, log := [], cif := back } ∧ All2 backBlock cif back :=
   roundtrip_doc 0 o pol cif out (by rw [hdia]; rfl) hun hpr hstore hmfd hutf hL hR hN hw
+
+open Lemmas.WriterChunks in
+/-- **C02_output_units** — what `cif_write` hands to the output stream in CIF 2.0 mode is well-formed UTF-16 — no unpaired
+    surrogate — all of whose characters are CIF 2.0 characters (`okUnits .cif2`), for every CIF of such characters (`cifR`; `nk`: the
+    key normalisation, immaterial here).  The bytes are ICU's conversion of these units (`u_fprintf` on a UTF-8 `UFILE`): that
+    conversion maps well-formed UTF-16 to valid UTF-8 — an assumption about ICU (ASSUMPTIONS), observed per case by family `write`
+    (the bytes are decoded strictly as UTF-8 before the re-parse). -/
+theorem C02_output_units (nk : Str → Str) (cif : WCif) (out : Str) (hR : cifR .cif2 nk cif) (hw : writeCif 0 cif = .ok out) :
+    Spec.Lexical.okUnits .cif2 none out = true :=
+  output_units 0 nk cif out hR hw
+
+open Lemmas.WriterChunks in
+/-- **C02_quoted_status** — the quoted status in the equivalence of `C02_roundtrip_doc` / `C13_roundtrip` (`backV`) is property
+    C02's relation: for a string the API can hold unquoted (`apiUnquoted`: what `cif_value_set_quoted(v, 0)` accepts) that is not
+    longer than a line — and for every quoted string — the value read back has the same text and, up to `C02_quotedRel`, the
+    same quoted status: only an unquoted string beginning with `;` comes back quoted.  The one further exception is the known
+    finding F-unquoted-overlong (an unquoted string longer than 2048 has no whitespace-delimited presentation). -/
+theorem C02_quoted_status (q : Bool) (t : Str) (r : V) (hq : q = true ∨ (apiUnquoted t ∧ t.length ≤ LINE))
+    (h : backV (.chr q t) r) : ∃ q', r = .chr q' t ∧ C02_quotedRel q t q' := by
+  obtain ⟨q', hr, h1, h2⟩ := h
+  refine ⟨q', hr, ?_⟩
+  cases q with
+  | true => exact Or.inl (h1 rfl)
+  | false =>
+    rcases hq with hq | ⟨ha, hl⟩
+    · cases hq
+    · by_cases h59 : t.head? = some 59
+      · cases q' with
+        | false => exact Or.inl rfl
+        | true => exact Or.inr ⟨rfl, h59, rfl⟩
+      · exact Or.inl (h2 rfl ((bareWritable_iff t ha).mpr ⟨h59, hl⟩))
 
 namespace C02Doc
 /-- what was written, or nothing -/
